@@ -149,3 +149,47 @@ func debugUnits(p *Program, arg string) int {
 	}
 	return 0
 }
+
+// debugErrDisc lists, for every repository function that itself returns an error, the error results of
+// calls to repository functions that are not returned on their non-nil path.
+func debugErrDisc(p *Program, arg string) int {
+	tot, bad := 0, 0
+	for _, fn := range p.allRepoFuncs() {
+		res := fn.Signature.Results()
+		retErr := false
+		for i := 0; i < res.Len(); i++ {
+			if isErrorType(res.At(i).Type()) {
+				retErr = true
+			}
+		}
+		if !retErr {
+			continue
+		}
+		for _, b := range fn.Blocks {
+			for _, in := range b.Instrs {
+				c, ok := in.(*ssa.Call)
+				if !ok {
+					continue
+				}
+				callee := c.Call.StaticCallee()
+				if callee == nil || !p.isRepoFunc(callee) {
+					continue
+				}
+				for _, e := range errorValuesOfCall(c) {
+					tot++
+					if e == nil {
+						bad++
+						fmt.Printf("%s: %s: error of %s discarded\n", p.pos(instrPos(c)), shortFn(fn), shortFn(callee))
+						continue
+					}
+					if ok, why := errorReturnedWhenNonNil(e); !ok {
+						bad++
+						fmt.Printf("%s: %s: error of %s: %s\n", p.pos(instrPos(c)), shortFn(fn), shortFn(callee), why)
+					}
+				}
+			}
+		}
+	}
+	fmt.Println("error results of repository calls in error-returning functions:", tot, "not returned:", bad)
+	return 0
+}
